@@ -158,15 +158,19 @@ def check_medium(case, v):
     return v
 
 
-def slow_cases():
+def slow_cases(tier="quick"):
     for g in games.slow_choice_games():
+        for prune in (True, False):
+            yield dict(kind="game", game=g, prune=prune, allow_slow=True)
+    for g in games.rewarded_corridor_games((130,) if tier == "quick" else (130, 360)):
         for prune in (True, False):
             yield dict(kind="game", game=g, prune=prune, allow_slow=True)
 
 
 def phases(tier):
     return [
-        Phase("slow-rewarded-loops", enum=slow_cases, note="values that need 10^3..10^5 sweeps"),
+        Phase("slow-rewarded-loops", enum=lambda: slow_cases(tier),
+              note="values that need 10^3..10^5 sweeps; rewarded corridors of 130 (thorough: 360) states"),
         Phase("medium-size-games", enum=medium_phase(tier),
               note="stopping games of 20-300 states; reference = own Gauss-Seidel to 1e-12 on the rebuilt conditioned game"),
         Phase("tiny-positive-reach-values", enum=tiny_cases,
